@@ -347,6 +347,13 @@ func ipdbScript(t *testing.T, r *Rng, s *Stream) {
 		return a, ""
 	}
 	refCheck := func(op, got, want string) {
+		if got != want && strings.HasPrefix(op, "db.lookup") && strings.HasPrefix(want, "ok") && got == "err:not-found" {
+			for _, pid := range []string{"C05", "C01"} { // the binding was dropped before the time it was granted for had elapsed
+				s.Find(Finding{Property: pid, Signature: "ipdb:binding-lost-early", Stream: "ipdb",
+					What: "a binding disappeared before its granted time had elapsed (the address becomes available to others while the grant is still running)",
+					Ops: append(append([]string(nil), hist...), op), Expected: want, Observed: got})
+			}
+		}
 		if got != want {
 			s.Find(Finding{Property: "C11", Signature: "ipdb:" + strings.SplitN(op, " ", 2)[0] + ":" + want + "!=" + got, Stream: "ipdb",
 				What: "IPDB result differs from a reference table with one live binding per address and per client", Ops: append(append([]string(nil), hist...), op), Expected: want, Observed: got})
@@ -506,7 +513,8 @@ func ipdbScript(t *testing.T, r *Rng, s *Stream) {
 			}
 			s.Count(fmt.Sprintf("find/probes=%d/%s", min(len(probes), 3), strings.SplitN(ans, " ", 2)[0]))
 		default:
-			dt := Pick(r, time.Second, 14*time.Second, 16*time.Second, 59*time.Second, 61*time.Second, time.Hour, 2*time.Hour)
+			dt := Pick(r, time.Second, 14*time.Second, 16*time.Second, 59*time.Second, 61*time.Second, time.Hour, 2*time.Hour,
+				300*time.Millisecond, 700*time.Millisecond, 15*time.Second-250*time.Millisecond, 60*time.Second-400*time.Millisecond, time.Hour-150*time.Millisecond)
 			time.Sleep(dt)
 			continue
 		}
